@@ -21,13 +21,38 @@ import (
 )
 
 var c04mix = []weighted{
-	{"pub", 40}, {"sleep", 16}, {"crash", 4}, {"crashfs", 3}, {"restart", 7}, {"cut", 8}, {"heal", 6}, {"stall", 3}, {"stalll", 2}, {"lagrepl", 3},
+	{"pub", 40}, {"sleep", 16}, {"crash", 4}, {"crashfs", 3}, {"restart", 7}, {"cut", 8}, {"heal", 6}, {"stall", 3}, {"stalll", 2}, {"lagrepl", 3}, {"metalag", 4},
 }
 
 func genC04(r *simrt.Rand, tier string, idx int) *hx.Program {
 	p := clusterGen(r, tier, c04mix)
 	if r.Pct(25) {
 		p.P["occ"] = 1
+	}
+	// a share of the programs are the failover families of C02 (lagging follower, deposed leaders with
+	// uncommitted tails, leadership moving on and back, metadata reaching a follower late): every
+	// acknowledgement sent along the way is judged as in the random programs
+	switch v := r.Intn(100); {
+	case v < 18:
+		p.P["nodes"], p.P["rf"] = 3, 3
+		p.P["minisr"] = int64(1 + r.Intn(2))
+		p.P["drop"], p.P["delay"] = 0, 0
+		p.P["lag_ms"] = []int64{1000, 2500}[r.Intn(2)]
+		p.P["leader_timeout_ms"] = []int64{1500, 3000}[r.Intn(2)]
+		c02Chain(r, p)
+	case v < 26:
+		p.P["nodes"], p.P["rf"], p.P["minisr"] = 3, 2, 1
+		p.P["drop"], p.P["delay"] = 0, 0
+		p.P["lag_ms"] = []int64{1000, 2500}[r.Intn(2)]
+		p.P["leader_timeout_ms"] = []int64{1500, 3000}[r.Intn(2)]
+		c02PingPong(r, p)
+	case v < 40:
+		p.P["nodes"], p.P["rf"] = 3+int64(r.Intn(2)), 3
+		p.P["minisr"] = int64(1 + r.Intn(2))
+		p.P["drop"], p.P["delay"] = 0, 0
+		p.P["lag_ms"] = []int64{1000, 2500, 5000}[r.Intn(3)]
+		p.P["leader_timeout_ms"] = []int64{1500, 3000}[r.Intn(2)]
+		c02Stale(r, p)
 	}
 	return p
 }
